@@ -559,6 +559,11 @@ func scrubAnswer(resp *dns.Msg, q dns.Question, zone string) {
 		next := ""
 		for i, rr := range resp.Answer {
 			h := rr.Header()
+			if h.Class != q.Qclass && q.Qclass != dns.ClassANY {
+				// A record of another class answers another question: a CH
+				// class A record was relayed, and cached, for an IN question.
+				continue
+			}
 			owner := dns.CanonicalName(h.Name)
 			covered := h.Rrtype
 			if sig, ok := rr.(*dns.RRSIG); ok {
